@@ -42,7 +42,7 @@ CARRIED_BY = {
     "method qualifiers: for every sequence of const / volatile / override / final / & / && (any order, any number) ended by a plain token, `= 0|delete|default` or a body, exactly the written flags are set and nothing else of the method changes": "theorems C03_method_qualifiers, C03_method_qualifiers_assign, C03_method_qualifiers_body, C03_qualifier_flags",
     "base clauses `key N : [access] [virtual] a::…::B [...] , … {` (any number of bases, any number/order of specifiers): the class block header lists ONE BaseClass per written base, in order, each with the access level of ITS OWN latest access specifier (else the class-key default), virtual iff written among ITS OWN specifiers, pack flag iff `...` follows ITS OWN name — nothing leaks from one base to the next; such classes compose in whole sources and class bodies (Item.clsB / Member.clsB)": "theorems C03_class_head_bases, C03_base_access_own, C03_base_virtual_own (Props/C03.lean) over baseClause_list / baseSpec_loop (Theorems/BaseClause.lean, induction over the base list and each specifier list); bases with template arguments: correspondence + oracle `member_grammar`",
     "`final` classes `key N final… [: base-clause] {`: the class block is marked final iff at least one `final` is written after the name (any number), independently of the base list; compose in whole sources (Item.clsF / clsFB, Member.clsF / clsFB)": "theorems C03_class_head_final, C03_class_head_final_bases over classSpec_loop (Theorems/ClassFinal.lean, induction over the written `final`s; the loop is named classSpecBody in Parser/Decl.lean)",
-    "constructors `N ( parameters ) qualifiers ;` and destructors `~N ( ) qualifiers ;` (`~N` is one token) in the body of a class named N, through parse()'s loop: the `(` after the class's own name is recognised (pushed back twice, re-read), exactly ONE on_class_method with constructor=True, NO return type, the class name, exactly the parameters (none for `()`, any PItemG list otherwise), the access level in force and exactly the written qualifier flags": "theorems C03_constructor (any parameter list via an interface hypothesis on _parse_parameters), C03_default_constructor, C03_constructor_parameters C03_destructor, C03_plain_destructor (Props/C03.lean) over cvPtr_paren_stop / declarator_ctor / declarator_dtor / toplevel_ctor / toplevel_dtor (Theorems/CtorDecl.lean); classes declaring them compose in whole sources: MemberN (members that may assume the class's name), Member.toN, MemberN.ctor0 / dtor0, mseq_soundN, Item.clsN (Theorems/MembersN.lean), with a concrete token stream meeting the hypotheses in Props/C01.lean",
+    "constructors `N ( parameters ) qualifiers ;` and destructors `~N ( ) qualifiers ;` (`~N` is one token) in the body of a class named N, through parse()'s loop: the `(` after the class's own name is recognised (pushed back twice, re-read), exactly ONE on_class_method with constructor=True, NO return type, the class name, exactly the parameters (none for `()`, any PItemG list otherwise), the access level in force and exactly the written qualifier flags": "theorems C03_constructor (any parameter list via an interface hypothesis on _parse_parameters), C03_default_constructor, C03_constructor_parameters C03_destructor, C03_plain_destructor (Props/C03.lean) over cvPtr_paren_stop / declarator_ctor / declarator_dtor / toplevel_ctor / toplevel_dtor (Theorems/CtorDecl.lean); classes declaring them compose in whole sources: MemberN (members that may assume the class's name), Member.toN, MemberN.ctor0 / ctorP / dtor0, mseq_soundN, Item.clsN, Member.clsN for nested classes (Theorems/MembersN.lean), with a concrete token stream meeting the hypotheses in Props/C01.lean",
     "other member kinds (operators, conversions, friends), noexcept/throw/trailing return in the sequence, template-argument bases": "NOT theorems: correspondence `parse[class view]` + oracle `member_grammar`",
 }
 ASSUMPTIONS = ["parser model tied to parser.py by the correspondence check"]
